@@ -191,15 +191,20 @@ def main():
     ores = oracles.run(pid, tables, seed, tier, intensify)
     stats["oracle"] = ores["stats"]
     found_input = False
+    model_only = [v for v in ores["violations"] if v.get("correspondence")]
     for v in ores["violations"]:
+        if v.get("correspondence"):
+            continue
         sig = v.get("site")
         hit = [k for k in kf if k.get("site") == sig]
         if hit:
             known_lines.append("KNOWN-FINDING: property=%s %s (%s)" % (pid, sig, hit[0].get("what", "")))
             continue
         found_input = True
-        path = write_replay(pid, "input", dict(v, oracle=True, seed=seed))
-        violations.append(path)
+        if len(violations) < 5:
+            violations.append(write_replay(pid, "input", dict(v, oracle=True, seed=seed)))
+        else:
+            violations.append(violations[-1])
 
     # 6. verdict
     for l in sorted(set(known_lines)):
@@ -209,10 +214,10 @@ def main():
         for p in violations[:5]:
             print("VIOLATION property=%s replay=%s" % (pid, p))
         rc = 1
-    elif proof_failures or corr_diffs:
+    elif proof_failures or corr_diffs or model_only:
         payload = {"what": "proof obligation or model/implementation correspondence no longer checks; the search found no failing input",
                    "proof_failures": proof_failures,
-                   "correspondence": [dict(corr.describe(f, x, y), family=fam) for fam, f, x, y in corr_diffs]}
+                   "correspondence": [dict(corr.describe(f, x, y), family=fam) for fam, f, x, y in corr_diffs] + model_only[:5]}
         if corr_diffs:
             payload["op"] = corr_diffs[0][1]
         path = write_replay(pid, "proof-broken" if proof_failures else "correspondence-broken", payload)
